@@ -694,6 +694,7 @@ def symmap_method(it, m, name, node):
             it.raise_if(z3.Not(present), 'KeyError', 'table-key:' + m.origin, n)
             res = val
         m._write('dom', z3.Store(m.dom, kt, False))
+        m._write('writes', m.writes + [('pop', kt)])
         return res
     tbl = dict(get=get, clear=clear, pop=pop)
     if name not in tbl:
